@@ -6,7 +6,8 @@ META = {
         "every fragmentation behaviour of small frame sequences; each is concretised at the real boundary sizes and replayed into "
         "the real FrameCodec, and every decode/encode/command-conversion event recorded from the code is validated against the same "
         "specification with the real constants (Hdr=7, MaxLen=65535). Structure is exhaustive at small scale, values are boundary-"
-        "driven and random.",
+        "driven and random."
+        " Session 2: the decoder as the session drives it (a real server session reads keep-alive requests and padding frames in every two-piece cut, byte at a time and random cuts; the answers must be the whole-stream parse) and the wire framing of frames written by the padding path (packets parse into frames with honest headers; run shared with C04).",
    technique="TLA+ spec (Wire.tla) + TLC exhaustive MC + TLC-generated behaviours replayed into FrameCodec + TLC trace validation",
    design_ref="DESIGN.md 3/C03"),
 }
@@ -39,7 +40,8 @@ META["C01"] = dict(
         "deviation configs that must fail). TLC-simulated behaviours of that model and random scripts are replayed against real "
         "Sessions of both roles over a fragmenting in-memory transport, a real client/server pair moves up to 1.5 MB over 1-5 "
         "streams with concurrent writers, chunk sizes 0..131072 and transport read sizes/capacities down to 1 byte; every read of "
-        "every reader is validated by Trace_Mux.tla.",
+        "every reader is validated by Trace_Mux.tla."
+        " Session 2: submissions on half-closed streams and under mid-frame transport stalls of 1 s..1 h; end-to-end echo integrity of position-coded data through the SOCKS5/HTTP front-ends, the real Client, TLS, the real server and a target (proto driver, Trace_Protocol echo clause).",
    technique="TLA+ spec (Mux.tla) + TLC MC of implementation-shaped model + TLC-simulated behaviours replayed into Session + TLC trace validation",
    design_ref="DESIGN.md 3/C01")
 META["C02"] = dict(
@@ -47,7 +49,8 @@ META["C02"] = dict(
         "itself which peer frames are stray (PSH/FIN for ids that are unknown, not yet opened, already finished; ids reused after "
         "FIN); it rejects any read whose bytes belong to another flow, any data or end-of-stream on a flow whose writer did not "
         "cause it, and stream tables that do not hold exactly the open ids after each quiescence point. MC_Mux proves OriginIsOwn "
-        "for every arrival order at small scale; the deviation StrayRoutedToLast must be caught.",
+        "for every arrival order at small scale; the deviation StrayRoutedToLast must be caught."
+        " Session 2: loss or failure on a stream after a frame / submission addressed to another id that is unknown, finished or half-closed is attributed here; client-layer pass (driver share, Trace_Share): a stream held open on a pooled session of the real Client while a sibling request of every fate is put on the same session.",
    technique="TLA+ spec (Mux.tla incarnations) + TLC MC + scripted-peer replay of TLC behaviours + TLC trace validation",
    design_ref="DESIGN.md 3/C02")
 META["C11"] = dict(
@@ -70,7 +73,8 @@ META["C09"] = dict(
         "complete schedule of the model and a systematic cause x role x fault-offset x scheme sweep are replayed on real Sessions "
         "(scheduling hooks + fault-injecting transport + virtual time); after one virtual hour the harness reports what became of "
         "every operation and Trace_SessionLife.tla accepts only 'closed, shut down, reader ended, open failed, writer and closer "
-        "returned, later write/open fail, nothing pending'.",
+        "returned, later write/open fail, nothing pending'."
+        " Session 2: a second, unscheduled writer queued behind the stalled one when the session is closed; application connections (reader, writer, half-closed) behind the SOCKS5/HTTP front-ends of a real Client whose TLS connection is cut must be ended (driver cut, Trace_Share).",
    technique="TLA+ spec (SessionLife.tla, liveness under fairness) + TLC MC + schedules and fault sweep replayed via hooks/SimPipe + TLC trace validation",
    design_ref="DESIGN.md 3/C09")
 META["C14"] = dict(
@@ -81,7 +85,8 @@ META["C14"] = dict(
         "rule of the pinned code violates the first clause. Every configuration of the grid (scaled to seconds, extra half-unit "
         "delays, with/without stream traffic, with a peer that also stops reading) is replayed on a real client Session in "
         "virtual time against a scripted peer; Trace_Heartbeat.tla judges every closure (permitted only once the peer has left a "
-        "request unanswered) and the end of every timeline (silent peer closed in time, waiters released).",
+        "request unanswered) and the end of every timeline (silent peer closed in time, waiters released)."
+        " Session 2: the same rules judge client-level real-time timelines: sessions created by Client (interval = pool check interval, timeout = pool idle timeout) behind a freezable relay, requests and answers observed through the rx/tx hooks.",
    technique="TLA+ spec (Heartbeat.tla, discrete time) + TLC exhaustive grid + every grid point replayed in virtual time + TLC trace validation",
    design_ref="DESIGN.md 3/C14")
 META["C10"] = dict(
@@ -104,7 +109,8 @@ META["C12"] = dict(
         "histories of a real SessionPool (virtual time, real Sessions) are validated by Trace_Pool.tla, which owns the map and "
         "judges every reaper tick by the property's clauses (only stream-less, only expired, never below the minimum, no more "
         "than MI expired survivors) and every get (never a closed session). The genuine defect F14 is accepted only as the named "
-        "deviation ReaperClosesSessionInUse, after every other clause of the tick has been checked.",
+        "deviation ReaperClosesSessionInUse, after every other clause of the tick has been checked."
+        " Session 2: client-level bursts on the empty pool with a final check that the sessions the idle map holds are closed down to the minimum; a request 100 ms into a reaper round whose victims take a second each to close must not receive a victim.",
    technique="TLA+ spec (Pool.tla, discrete time) + TLC exhaustive MC of two designs + recorded pool histories validated by TLC",
    design_ref="DESIGN.md 3/C12")
 META["C13"] = dict(
@@ -127,7 +133,8 @@ META["C07"] = dict(
         "peer that cuts the header at every position across frames and reads, and the real client-side encoders (Client, SOCKS5, "
         "HTTP CONNECT, UDP association) end to end; the socket the server is about to dial is reported by a cfg-guarded hook "
         "(also for ports where nothing listens) and Trace_Dest.tla requires address and port to equal the request (names: an "
-        "address of the host, the requested port).",
+        "address of the host, the requested port)."
+        " Session 2: overlapping resolver calls for one uncached host with different ports; absolute-form GET/POST/HEAD requests with delimiter-rich paths through the HTTP listener; IPv4-mapped, IPv4-compatible, unspecified and documentation IPv6 destinations.",
    technique="TLA+ spec (Dest.tla cache history machine, DestCodec) + TLC exhaustive MC + recorded resolver/decoder/end-to-end traces validated by TLC",
    design_ref="DESIGN.md 3/C07")
 META["C16"] = dict(
@@ -159,7 +166,8 @@ META["C06"] = dict(
         "behaviours are concretised (boundary padding lengths up to 65535, four passwords, bit/byte/related-password deviations) "
         "and replayed into the real authenticate_client; raw TLS connections exercise the real server, where only a correct and "
         "complete preamble may lead to a dial (cfg-guarded hook) and every other connection must get no byte back and be closed. "
-        "Trace_Auth.tla judges with the real constants (32, 2).",
+        "Trace_Auth.tla judges with the real constants (32, 2)."
+        " Session 2: stalled peers (a strict prefix of the preamble, 6.3 s - thorough 32 s - of silence, then frames) beside the other connections.",
    technique="TLA+ spec (Auth.tla) + TLC exhaustive MC of the acceptor + all TLC behaviours replayed into authenticate_client + real-server TLS rig + TLC trace validation",
    design_ref="DESIGN.md 3/C06")
 META["C15"] = dict(
@@ -169,7 +177,8 @@ META["C15"] = dict(
         "replayed by a scripted peer into the real handle_udp_over_tcp on a real stream with a real loopback UDP target (both "
         "directions), and end-to-end rounds go through Client::create_udp_proxy and the real server; Trace_Udp.tla accepts a "
         "delivery only if it is the oldest datagram under way in its direction, with the same length and contents, to/from the "
-        "right socket, and nothing may be left or invented at the end.",
+        "right socket, and nothing may be left or invented at the end."
+        " Session 2: the stream handler is entered through the real TcpProxyHandler (magic-name preface cut or coalesced with the request and the first datagram), reverse datagrams arrive while a datagram of the other direction is partly delivered, and the client's reply decoder is fed by a scripted UDP-over-TCP server over TLS that cuts replies at arbitrary positions across frames.",
    technique="TLA+ spec (Udp.tla) + TLC exhaustive MC + TLC behaviours replayed into the UDP handler + end-to-end UDP rig + TLC trace validation",
    design_ref="DESIGN.md 3/C15")
 META["C18"] = dict(
@@ -184,7 +193,8 @@ META["C18"] = dict(
         "the step). MC_CertReloadSteps.tla models reload() at the grain of the code (read certificate, read key, information, "
         "commit) with file replacements interleaved: it holds when the information comes from the bytes already read and fails "
         "with the deviation InfoReadAgain (the pinned code, finding F25); the harness reproduces that interleaving with a second "
-        "thread that keeps replacing the certificate file while reloads run.",
+        "thread that keeps replacing the certificate file while reloads run."
+        " Session 2: certificates expired for years or for one hour (finding F24).",
    technique="TLA+ spec (CertReload.tla) + TLC enumeration of all 4-step histories replayed on a real CertReloader + TLC trace validation",
    design_ref="DESIGN.md 3/C18")
 META["C19"] = dict(
@@ -195,7 +205,8 @@ META["C19"] = dict(
         "process-wide, each history runs in a fresh child process: a real Client against a scripted TLS server (announced digests, "
         "a second request on every pushed session), validated by Trace_SchemePush.tla which runs AfterSession itself; and "
         "in-memory sessions pushed between two packets, whose later packets are validated by Trace_Padding.tla under the scheme "
-        "the reference says is in force.",
+        "the reference says is in force."
+        " Session 2: the preamble padding length of every session is compared with line 0 of the scheme in force; client scheme with stop=2 so that the client is past its own stop when the push arrives.",
    technique="TLA+ spec (SchemePush.tla + Padding.tla) + TLC enumeration of all histories, each replayed in a fresh process + TLC trace validation (two validators)",
    design_ref="DESIGN.md 3/C19")
 META["C08"] = dict(
@@ -207,7 +218,8 @@ META["C08"] = dict(
         "proxied connections through the real SOCKS5 / HTTP front-ends, Client, server and a scripted target, closing side and "
         "order and bytes in flight varied; Trace_Close.tla requires the opposite endpoint to have received exactly what was sent, "
         "to observe end-of-stream, and the other direction to keep working."
-        " Extension: Protocol.tla states the session protocol as one endpoint sees it (which frames may arrive / be submitted given everything before); TLC checks a reference client/server pair over FIFO wires against it (and that five deviations are rejected), and the rx/tx frame events of every real session in end-to-end runs through TLS (SOCKS5/HTTP front-ends, pooled sessions, keep-alive, scheme push) are validated by Trace_Protocol; clauses tagged with this property count toward the verdict, the others are reported as MODEL-DRIFT.",
+        " Extension: Protocol.tla states the session protocol as one endpoint sees it (which frames may arrive / be submitted given everything before); TLC checks a reference client/server pair over FIFO wires against it (and that five deviations are rejected), and the rx/tx frame events of every real session in end-to-end runs through TLS (SOCKS5/HTTP front-ends, pooled sessions, keep-alive, scheme push) are validated by Trace_Protocol; clauses tagged with this property count toward the verdict, the others are reported as MODEL-DRIFT."
+        " Session 2: long half-closes (12 s, thorough 62 s, the other direction trickling all the time, both closing orders, both front-ends) and abortive closes (TCP reset) in the end-to-end rig.",
    technique="TLA+ spec (Mux.tla close rules, liveness under fairness) + TLC MC + replayed behaviours on in-memory rigs + end-to-end close rig + TLC trace validation (two validators)",
    design_ref="DESIGN.md 3/C08")
 META["C20"] = dict(
@@ -217,7 +229,8 @@ META["C20"] = dict(
         "alphabet (all single frames, all pairs) as the behaviour generator; each sequence, random byte strings and mutations of "
         "valid traffic are fed to real Sessions of both roles in virtual time, then probes establish the outcome and "
         "Trace_Hostile.tla judges it with SessionOutcomeOk; garbage towards the real SOCKS5 / HTTP listeners and inside a "
-        "UDP-over-TCP stream must end that connection only.",
+        "UDP-over-TCP stream must end that connection only."
+        " Session 2: long non-ASCII text payloads; EOF inside a frame on its own thread under a watchdog (a task that never yields becomes data); well-formed-looking HTTP requests with multi-byte characters / raw high bytes / odd separators at small offsets; hostile frames and hostile destination headers sent to the real server through TLS with a sibling client's session as witness.",
    technique="TLA+ spec (Hostile.tla reaction rules) + TLC enumeration of the frame alphabet replayed into Sessions + random/mutation inputs + TLC trace validation",
    design_ref="DESIGN.md 3/C20")
 NOT_YET = "check not built yet in this round (planned: DESIGN.md section 3); not claimed"
